@@ -457,8 +457,9 @@ def gen_codec(rng, cid, tier, purge):
     tw.both(4, [2]); tw.both(3, []); tw.both(12, [])
     # the twins merged into two (twin) copies of a third sketch
     ops.append((7, [2, 3]))
-    ops += [(4, [2, 0]), (4, [3, 1])]
     tw2 = Twin(ops, 2, 3)
+    tw2.both(3, [])                               # maximum_error at the fork (kf_twin_layout compares with it)
+    ops += [(4, [2, 0]), (4, [3, 1])]
     tw2.both(3, []); tw2.both(12, [])
     for y in qdom[:6]:
         tw2.both(2, [y, h(y)])
@@ -542,19 +543,24 @@ def gen_layout(rng, cid, tier):
     return Case(cid, [], ops, tag=c.tag.replace("fi-", "fi-layout-", 1))
 
 
-def use_value_ops(rng, slot, lg_max, items):
+def use_value_ops(rng, slot, lg_max, items, weight=0):
     """a value returned as Ok must be usable: queried, updated (enough to resize and purge small maps), merged with a
-    round-trip copy of itself, re-serialized"""
+    round-trip copy of itself, re-serialized.  The calls stay valid: no update or merge that would take the total weight
+    beyond u64 (weight = the stream weight the image announces)."""
     ops = [(3, [slot]), (12, [slot])]
     for x in list(items)[:4] + [424242]:
         ops.append((2, [slot, x, h(x)]))
     ops += [(5, [slot, 0, 0, 0]), (5, [slot, 1, 1, 2])]
     nupd = 2 * (1 << max(lg_max, 3)) if lg_max <= 5 else 12
-    base = rng.randint(-50, 50)
-    for i in range(nupd):
-        x = base + i
-        ops.append((1, [slot, x, rng.choice([1, 2, 9]), h(x)]))
-    ops += [(7, [slot, slot + 1]), (4, [slot, slot + 1]), (3, [slot]), (6, [slot]), (12, [slot + 1])]
+    if 2 * (weight + 9 * nupd) < 2**64:
+        base = rng.randint(-50, 50)
+        for i in range(nupd):
+            x = base + i
+            ops.append((1, [slot, x, rng.choice([1, 2, 9]), h(x)]))
+        ops += [(7, [slot, slot + 1]), (4, [slot, slot + 1])]
+    else:
+        ops += [(7, [slot, slot + 1])]
+    ops += [(3, [slot]), (6, [slot]), (12, [slot + 1])]
     return ops
 
 
@@ -568,9 +574,9 @@ def mutate(rng, img, n):
     elif r < 0.30:
         b[3] = rng.choice([0, 2, 3, 4, 31, 32, 61, 62, 63, 64, 65, 127, 128, 200, 255])
     elif r < 0.40:
-        b[4] = rng.choice([0, 2, 3, 4, b[3], (b[3] + 1) % 256, 10, 14, 31, 62, 63, 64, 200, 255])
+        b[4] = rng.choice([0, 2, 3, 4, b[3], (b[3] + 1) % 256, 9, 10, 31, 62, 63, 64, 200, 255])
     elif r < 0.46:
-        b[3], b[4] = rng.choice([(63, 3), (64, 64), (200, 3), (255, 255), (62, 14), (40, 41), (3, 4), (0, 0), (2, 1)])
+        b[3], b[4] = rng.choice([(63, 3), (64, 64), (200, 3), (255, 255), (62, 10), (40, 41), (3, 4), (0, 0), (2, 1)])
     elif r < 0.54:
         b[5] = rng.choice([0, 1, 2, 4, 5, 8, 0xFA, 0xFF])
         if rng.random() < 0.5:
@@ -626,10 +632,10 @@ def gen_malformed(rng, cid, tier):
     slot = 0
     for b in variants:
         r = ref_parse(b)
-        if r is not None and max(r[1], 3) > 14:
+        if r is not None and max(r[1], 3) > 10:
             continue        # a valid image announcing a big table: gen_bigalloc covers that class (bounded sizes)
         ops.append(parse_op(slot, b))
-        ops += use_value_ops(rng, slot, r[0] if r else 3, image_items(b))
+        ops += use_value_ops(rng, slot, r[0] if r else 3, image_items(b), r[2] if r else 0)
     return Case(cid, [], ops, tag="fi-malformed")
 
 
